@@ -1252,4 +1252,106 @@ theorem step_deltas {cv : Curve} {s s' : St} {op : Op} (h : step cv s op = .ok s
     · exact ⟨0, 0, 0, 0, 0, 0, SideDelta.same _, SideDelta.zero_of_bal _ _, by simp, by simp⟩
     · exact ⟨0, 0, 0, 0, 0, 0, SideDelta.same _, SideDelta.same _, by simp, by simp⟩
 
+/-! ### nobody else's funds move -/
+
+/-- the user index whose funds an operation may take (the sender of the message) -/
+def Op.actor : Op → Option Nat
+  | .provide u _ _ _ _ => some u
+  | .swap u _ _ _ _ => some u
+  | .withdraw u _ => some u
+  | .donate u _ _ => some u
+  | .swapBad u _ _ _ => some u
+  | .foreign _ u _ => some u
+  | .collect => none
+  | .setFees _ _ => none
+  | .setCollector _ _ => none
+
+def User.le (x y : User) : Prop := x.a ≤ y.a ∧ x.b ≤ y.b ∧ x.lp ≤ y.lp
+
+theorem User.le_refl (x : User) : User.le x x := ⟨Nat.le_refl _, Nat.le_refl _, Nat.le_refl _⟩
+
+theorem getD_set_ne (l : List User) (u v : Nat) (x d : User) (h : v ≠ u) :
+    (l.set u x).getD v d = l.getD v d := by
+  simp [List.getD, List.getElem?_set_ne (Ne.symm h)]
+
+/-- after `set u x` then `set r y` where `y` only adds to what was there, every user other than `u`
+    holds at least what it held -/
+theorem others_le_set2 (l : List User) (u r v : Nat) (x y : User) (hv : v ≠ u)
+    (hy : User.le ((l.set u x).getD r dflt) y) :
+    User.le (l.getD v dflt) (((l.set u x).set r y).getD v dflt) := by
+  by_cases hr : v = r
+  · subst hr
+    by_cases hlen : v < (l.set u x).length
+    · rw [getD_set_self _ _ _ _ hlen]
+      rw [getD_set_ne l u v x dflt hv] at hy
+      exact hy
+    · have hlen' : ¬ v < l.length := by simpa using hlen
+      have e1 : l.getD v dflt = dflt := by simp [List.getD, hlen']
+      rw [e1]
+      exact ⟨Nat.zero_le _, Nat.zero_le _, Nat.zero_le _⟩
+  · rw [getD_set_ne _ r v y dflt hr, getD_set_ne l u v x dflt hv]
+    exact User.le_refl _
+
+/-- **nobody else's funds move**: a successful operation of ANY pair type never lowers the asset or LP
+    balances of a user other than the sender of the message (receivers only gain) -/
+theorem others_never_lose {cv : Curve} {s s' : St} {op : Op} (h : step cv s op = .ok s') (v : Nat)
+    (hv : op.actor ≠ some v) : User.le (s.user v) (s'.user v) := by
+  have swapCase : ∀ {u dir off rcv : Nat} {ms : Option Nat}, swap cv s u dir off ms rcv = .ok s' → v ≠ u →
+      User.le (s.user v) (s'.user v) := by
+    intro u dir off rcv ms h hvu
+    unfold swap at h
+    obtain ⟨_, g1, h⟩ := Res.bind_eq_ok h
+    split at h
+    · obtain ⟨_, _, h⟩ := Res.bind_eq_ok h
+      obtain ⟨_, _, h⟩ := Res.bind_eq_ok h
+      obtain ⟨⟨a', c⟩, _, h⟩ := Res.bind_eq_ok h
+      injection h with h
+      subst h
+      simp only [St.user, St.setUser]
+      apply others_le_set2 _ _ _ _ _ _ hvu
+      exact ⟨Nat.le_refl _, Nat.le_add_right _ _, Nat.le_refl _⟩
+    · obtain ⟨_, _, h⟩ := Res.bind_eq_ok h
+      obtain ⟨_, _, h⟩ := Res.bind_eq_ok h
+      obtain ⟨⟨a', c⟩, _, h⟩ := Res.bind_eq_ok h
+      injection h with h
+      subst h
+      simp only [St.user, St.setUser]
+      apply others_le_set2 _ _ _ _ _ _ hvu
+      exact ⟨Nat.le_add_right _ _, Nat.le_refl _, Nat.le_refl _⟩
+  cases op with
+  | provide u rcv d0 d1 tol =>
+    have hvu : v ≠ u := fun e => hv (by simp [Op.actor, e])
+    obtain ⟨share, lock, _, _, _, _, _, _, _, _, _, _, _, _, eU, _⟩ := provide_ok h
+    simp only [St.user, eU]
+    apply others_le_set2 _ _ _ _ _ _ hvu
+    exact ⟨Nat.le_refl _, Nat.le_refl _, Nat.le_add_right _ _⟩
+  | swap u dir off ms rcv =>
+    exact swapCase h (fun e => hv (by simp [Op.actor, e]))
+  | swapBad u dir off sent =>
+    exact swapCase (swapBad_ok h) (fun e => hv (by simp [Op.actor, e]))
+  | withdraw u amt =>
+    have hvu : v ≠ u := fun e => hv (by simp [Op.actor, e])
+    obtain ⟨r0, r1, _, _, _, _, _, _, _, _, _, _, eU, _⟩ := withdraw_ok h
+    simp only [St.user, eU]
+    rw [getD_set_ne _ u v _ _ hvu]
+    exact User.le_refl _
+  | collect =>
+    obtain ⟨y0, y1, _, _, e⟩ := collect_ok h
+    subst e
+    exact User.le_refl _
+  | setFees o f =>
+    obtain ⟨_, _, e⟩ := setFees_ok h
+    subst e
+    exact User.le_refl _
+  | setCollector o b =>
+    obtain ⟨_, e⟩ := setCollector_ok h
+    subst e
+    exact User.le_refl _
+  | foreign k u a => cases h
+  | donate u which amt =>
+    have hvu : v ≠ u := fun e => hv (by simp [Op.actor, e])
+    obtain ⟨_, hcase⟩ := donate_ok h
+    rcases hcase with ⟨_, _, e⟩ | ⟨_, _, e⟩ | ⟨_, _, e⟩ <;> subst e <;>
+      (simp only [St.user]; rw [getD_set_ne _ u v _ _ hvu]; exact User.le_refl _)
+
 end WW.Pair
